@@ -130,6 +130,7 @@ class AWorld:
         self.server_events = None   # callable() -> list[(label, fn)]
         self.cancelled_log = []
         self.quiescent_hook = None
+        self.timer_cooldown = False
 
     # ------------------------------------------------------------------ callers
     def _task_name(self):
@@ -210,9 +211,12 @@ class AWorld:
                 if not ev.is_set() and ev._waiters:
                     m.append((f"release:{name}", ev.set, 1))
         timers = loop.live_timers()
-        if timers and not ready:
-            # virtual time advances only when nothing is runnable (discrete-event semantics): a deadline is never
-            # observed later than it fires because of a backlog that a real loop would have run in microseconds
+        due_pending = any(isinstance(h, asyncio.TimerHandle) for h in loop.live_ready())
+        if not ready:
+            self.timer_cooldown = False
+        if timers and not due_pending and not self.timer_cooldown and (self.early or not ready):
+            # time may pass between any two iterations (a deadline can land while other handles are ready), but virtual
+            # time never jumps past a deadline whose handler has not run yet: a real loop runs it within microseconds
             m.append(("timer", self._fire_timer, 1))
         if self.cancels > 0:
             for c in self.callers:
@@ -252,6 +256,9 @@ class AWorld:
             fut.set_result(val)
 
     def _fire_timer(self):
+        # after a deadline fired, virtual time stands still until its consequences have run to quiescence:
+        # a real loop needs microseconds for them, never seconds
+        self.timer_cooldown = True
         self.loop.fire_next_timer()
 
     def _cancel(self, c, style):
@@ -310,7 +317,7 @@ class AWorld:
             [(c["name"], c["task"], c["result"], c["cancel_delivered"] is not None, anyio_asyncio._task_states.get(c["task"]) if c["task"] else None)
              for c in self.callers],
             list(self.loop._ready), self.loop.live_timers(), self.net, self.net.pending,
-            self.env.faults, self.cancels, self.roots, sorted((k, v.is_set()) for k, v in getattr(self, "gates", {}).items()),
+            self.env.faults, self.cancels, self.timer_cooldown, self.roots, sorted((k, v.is_set()) for k, v in getattr(self, "gates", {}).items()),
         ]
         d, unm = canon.fingerprint(roots, now=self.loop.time(), skip_attrs=("parent_id", "_cancel_reason", "_loop"), extra_rules=A_RULES)
         self.unmergeable |= unm
